@@ -59,9 +59,15 @@ def invalid_class(msg):
         if m.group(2) == 'SCOPE' and a != 'ANY':
             a = '(not a DSP0201 scope)'
         return 'undeclared_attribute:%s@%s' % (a, m.group(2))
-    m = re.match(r'Element (\S+) content does not follow the DTD, expecting .*, got \((.*?)\)', msg)
+    m = re.match(r'Element (\S+) content does not follow the DTD', msg)
     if m:
         return 'content:%s' % m.group(1)
+    m = re.match(r'Element (\S+) was declared #PCDATA but contains non text nodes', msg)
+    if m:
+        return 'pcdata_with_elements:%s' % m.group(1)
+    m = re.match(r'Element (\S+) does not carry attribute (\S+)', msg)
+    if m:
+        return 'missing_attribute:%s@%s' % (m.group(2), m.group(1))
     m = re.match(r'Value "(.*)" for attribute (\S+) of (\S+) is not among the enumerated set', msg)
     if m:
         return 'enum:%s@%s' % (m.group(2), m.group(3))
@@ -669,7 +675,8 @@ def gen_arg(g, rng, op, pname, miss):
     if miss:
         return rng.choice(wrong)
     if pname == 'namespace':
-        return rng.choice([None, None, 'root/cimv2', '/root/x/', 'a', '//a//b//', g.namespace(), 'n s', 'é/中'])
+        return rng.choice([None, None, None, 'root/cimv2', 'root/cimv2', '/root/x/', 'a', '//a//b//', g.namespace(),
+                           g.namespace(), 'n s', 'interop', '/', '', 'ü/x', 'é/中'])
     if pname in ('ClassName', 'AssocClass', 'ResultClass'):
         if r < 0.15 and not (pname == 'ClassName' and op not in ('EnumerateClasses', 'EnumerateClassNames')):
             return None
@@ -699,7 +706,9 @@ def gen_arg(g, rng, op, pname, miss):
     if pname in ('QueryLanguage', 'Query', 'QualifierName'):
         return rng.choice(['WQL', 'select * from C where a<5', g.string(), g.name('Q')])
     if pname in ('OperationTimeout', 'MaxObjectCount'):
-        return rng.choice([None, 0, 1, 100, 2**32, pywbem.Uint32(7), True]) if r < 0.9 else rng.choice([-1, -2**40])
+        if op.startswith('Iter') and pname == 'MaxObjectCount':      # Iter...() demands MaxObjectCount > 0
+            return rng.choice([1, 100, 2**32, pywbem.Uint32(7)]) if r < 0.9 else rng.choice([None, 0, -1])
+        return rng.choice([None, 0, 1, 100, 2**32, pywbem.Uint32(7), True]) if r < 0.93 else rng.choice([-1, -2**40])
     if pname == 'context':
         return rng.choice([(g.string() or 'ctx', g.namespace()), ('ctx-1', 'root/cimv2'), ['c', '/a/b/'], (g.string(), 'n')])
     if pname in ('ModifiedInstance', 'NewInstance', 'NewIndication'):
@@ -1257,11 +1266,11 @@ def run(run):
         'harness: a request whose CIMObject/CIMMethod header they refuse counts as a local failure',
         'element-level minidom printing is modelled by Xml.ser and compared byte for byte on every document',
     ]
-    trees = part_objects(run, 6000 if th else 1200, 1500 if th else 300, 400 if th else 120)
-    part_mutants(run, trees, 12000 if th else 1500)
-    part_content_models(run, 200 if th else 40)
-    part_requests(run, 12000 if th else 1600, 2500 if th else 300)
-    part_listener(run, 600 if th else 80)
+    trees = part_objects(run, 30000 if th else 4000, 6000 if th else 800, 1500 if th else 300)
+    part_mutants(run, trees, 40000 if th else 5000)
+    part_content_models(run, 300 if th else 60)
+    part_requests(run, 40000 if th else 5000, 8000 if th else 1000)
+    part_listener(run, 1500 if th else 200)
 
 
 def oracle_only(run):
